@@ -605,8 +605,22 @@ where
                     inv("cas", *c as i64, cur_id, id, *g as i64);
                     let val = mk_src(w, v, -1);
                     arg(val_id(&val));
-                    res = S::cas_gref(&cont, &guard, val);
-                    put(&mut wl(w).guards, *gi, guard);
+                    // the guard is only lent to the call: it goes back into its register also when the call unwinds
+                    struct Back<'a, S2: Strategy<T>>(&'a Arc<Mutex<World<S2>>>, usize, Option<Guard<T, S2>>);
+                    impl<'a, S2: Strategy<T>> Drop for Back<'a, S2> {
+                        fn drop(&mut self) {
+                            if let Some(g) = self.2.take() {
+                                let mut wg = wl(self.0);
+                                while wg.guards.len() <= self.1 {
+                                    wg.guards.push(None);
+                                }
+                                wg.guards[self.1] = Some(g);
+                            }
+                        }
+                    }
+                    let back = Back(w, *gi, Some(guard));
+                    res = S::cas_gref(&cont, back.2.as_ref().unwrap(), val);
+                    drop(back);
                 }
             }
             let _ = form;
